@@ -34,6 +34,9 @@ func init() {
 // config.CoreSize, or a parameter every caller feeds with a CoreSize field).
 func modulusOK(w *World, fn *ssa.Function, m *T) (bool, string) {
 	m = stripConv(m)
+	if m.Op == "sel" && m.S == "CoreSize" && typeName(m.A[0].Ty) == "SimulatorConfig" {
+		return true, "" // the configured core size itself
+	}
 	if m.Op == "sel" && m.A[0].Op == "deref" && m.A[0].A[0].Op == "p" {
 		// compiler field: check the constructor stores config.CoreSize into it
 		ctor := Asm(w).NewCompiler
